@@ -651,4 +651,71 @@ Definition auto_image_class (w : tty * nv_memo) : option style * (tty * nv_memo)
     | None => (None, w2)
     end.
 
+(** ** one cache epoch: utils.cached (utils.py:160-194) around get_fg_bg_colors and
+    get_terminal_name_version.  The memo key is [(args, tuple(kwargs.items()))]: for
+    get_fg_bg_colors (keyword-only [hex], default False) the three call forms [()], [(hex=False)], [(hex=True)] are
+    three different keys (keyword NAME AND VALUE), each computed by its own query. *)
+Inductive fg_form := FDefault | FHex (h : bool).
+Definition form_hex (f : fg_form) : bool := match f with FDefault => false | FHex h => h end.
+Definition form_eqb (a b : fg_form) : bool :=
+  match a, b with
+  | FDefault, FDefault => true
+  | FHex x, FHex y => Bool.eqb x y
+  | _, _ => false
+  end.
+
+(** HEX_RGB_FMT = "#%02x%02x%02x" (utils.py:524-527), components in 0..255 *)
+Definition hex_digit_lc (d : Z) : byte := if d <? 10 then 48 + d else 87 + d.
+Definition hex2 (v : Z) : list byte := [hex_digit_lc (v / 16); hex_digit_lc (v mod 16)].
+Definition hex_rgb (c : rgb) : list byte := let '(r, g, b) := c in 35 :: hex2 r ++ hex2 g ++ hex2 b.
+
+Inductive colour_value :=
+| VRgb (c : option rgb * option rgb)
+| VHex (c : option (list byte) * option (list byte)).
+(** fg and (HEX_RGB_FMT % fg if hex else fg) *)
+Definition represent (hex : bool) (c : option rgb * option rgb) : colour_value :=
+  if hex then VHex (option_map hex_rgb (fst c), option_map hex_rgb (snd c)) else VRgb c.
+
+Inductive scall := SFg (f : fg_form) | SNv.
+Inductive sres :=
+| RFg (v : option colour_value)                   (* None = the call raised (nothing is cached) *)
+| RNv (n v : option (list byte)).
+
+Definition fg_memo := list (fg_form * colour_value).
+Fixpoint lookup_form (f : fg_form) (m : fg_memo) : option colour_value :=
+  match m with
+  | [] => None
+  | (g, v) :: r => if form_eqb f g then Some v else lookup_form f r
+  end.
+
+Definition epoch := (tty * fg_memo * nv_memo)%type.
+
+Definition session_step (call : scall) (w : epoch) : sres * epoch :=
+  let '(st, mfg, mnv) := w in
+  match call with
+  | SFg f =>
+      match lookup_form f mfg with
+      | Some v => (RFg (Some v), w)                                  (* cache[arguments] *)
+      | None =>
+          let (r, st') := get_fg_bg st in
+          match r with
+          | None => (RFg None, (st', mfg, mnv))
+          | Some cs => let v := represent (form_hex f) cs in
+                       (RFg (Some v), (st', (f, v) :: mfg, mnv))      (* cache.setdefault *)
+          end
+      end
+  | SNv =>
+      let (r, w') := cached_name_version (st, mnv) in
+      (RNv (fst r) (snd r), (fst w', mfg, snd w'))
+  end.
+
+Fixpoint session (calls : list scall) (w : epoch) : list sres * epoch :=
+  match calls with
+  | [] => ([], w)
+  | call :: rest =>
+      let (r, w1) := session_step call w in
+      let (rs, w2) := session rest w1 in
+      (r :: rs, w2)
+  end.
+
 End IO.
